@@ -68,6 +68,23 @@ class _Trans:
         self.system = system
 
 
+def prob_dual_initialize(mk, given):
+    """The real ``initialize`` (the coarse search itself is the subject of case_search and is replaced by a symbolic result):
+    regularisation target = the configured value whenever one is configured - for every real value, zero included - and
+    log(10 * initial step size) only when none is; counters start from zero."""
+    mu = mk.real("mu") if given else None
+    eps0 = mk.pos("eps0")
+    ad = AD.DualAveragingStepSizeAdapter(log_step_size_reg_target=mu)
+    ad._find_and_set_init_step_size = lambda state, system, integrator: eps0
+    tr = _Trans()
+    st = ad.initialize(ChainState(pos=np.zeros(1), mom=np.zeros(1), dir=1), tr)
+    want = mu if given else _log(10 * eps0)
+    return [Item(f"dual averaging initialize (target {'configured' if given else 'default'}): regularisation target", st["log_step_size_reg_target"], want),
+            Item("dual averaging initialize: iteration counter and accumulators start at zero",
+                 np.array([st["iter"], st["smoothed_log_step_size"], st["adapt_stat_error"]], dtype=object if mk.symbolic else float),
+                 np.zeros(3))]
+
+
 def prob_dual_averaging(mk, T, n_chain=1, reducer="arithmetic"):
     delta, gamma, kappa = mk.real("delta"), mk.pos("gamma"), mk.pos("kappa")
     t0 = 10
@@ -205,7 +222,7 @@ def prob_too_few(mk, cov=False):
     return [Item("fewer than two samples raise AdaptationError", ok if not mk.symbolic else z3.BoolVal(ok), None, kind="true")]
 
 
-PROBS = {"dual": prob_dual_averaging, "variance": prob_variance, "too_few": prob_too_few}
+PROBS = {"dual": prob_dual_averaging, "dual_init": prob_dual_initialize, "variance": prob_variance, "too_few": prob_too_few}
 
 
 def run_group(rec, probs):
@@ -306,6 +323,7 @@ def cases(tier):
     out = []
     T = 6 if th else 4
     out.append(Case("dual/single", run_group, {"probs": [("dual", {"T": T, "n_chain": 1})]}, timeout_s=900))
+    out.append(Case("dual/initialize", run_group, {"probs": [("dual_init", {"given": True}), ("dual_init", {"given": False})]}, timeout_s=300))
     for red in ("arithmetic", "geometric", "min"):
         out.append(Case(f"dual/chains/{red}", run_group, {"probs": [("dual", {"T": 2, "n_chain": 3 if th else 2, "reducer": red})]}, timeout_s=900))
     for cov in (False, True):
